@@ -425,6 +425,49 @@ def _descends_into_argument(repo: Repo, qual: str) -> bool:
     return True
 
 
+def _forwards_to_parts_of_its_arguments(repo: Repo, qual: str, comp_names: set) -> bool:
+    """A private helper inside a structural cycle that only *forwards*: every call it makes back
+    into the cycle has a receiver that is one of its own parameters, an attribute / item of one, or
+    a loop variable over one (``for f in filters: left = f.evaluate(left, context)``).  It adds no
+    recursion of its own: how deep it goes is how deep the structure handed to it is."""
+    name = qual.rsplit(".", 1)[-1]
+    if not name.startswith("_") or name.startswith("__"):
+        return False
+    try:
+        f = repo.func(qual)
+    except Exception:  # noqa: BLE001
+        return False
+    params = set(f.params()) - {"self", "cls"}
+    parts = set(params)
+    changed = True
+    while changed:
+        changed = False
+        for n in ast.walk(f.node):
+            gens = []
+            if isinstance(n, (ast.For, ast.AsyncFor)):
+                gens = [(n.target, n.iter)]
+            elif isinstance(n, (ast.ListComp, ast.GeneratorExp, ast.SetComp, ast.DictComp)):
+                gens = [(g.target, g.iter) for g in n.generators]
+            for tg, it in gens:
+                if names_in(it) & parts:
+                    for nm in names_in(tg):
+                        if nm not in parts:
+                            parts.add(nm)
+                            changed = True
+    n_calls = 0
+    for c in ast.walk(f.node):
+        if isinstance(c, ast.Call) and callee_name(c) in comp_names:
+            n_calls += 1
+            if not isinstance(c.func, ast.Attribute):
+                return False
+            root = c.func.value
+            while isinstance(root, (ast.Attribute, ast.Subscript)):
+                root = root.value
+            if not (isinstance(root, ast.Name) and root.id in parts):
+                return False
+    return n_calls > 0
+
+
 def run(repo: Repo) -> Result:
     res = Result(PID)
     res.rules = ["C09-PROGRESS", "C09-EOF", "C09-GUARDS", "C09-CYCLES", "C09-BUDGET", "C09-EXTENDS", "C09-FUNNEL"]
@@ -682,7 +725,7 @@ def run(repo: Repo) -> Result:
         if any(q in guard_funcs for q in comp):
             res.sample({"rule": "C09-CYCLES", "cycle": key[:160], "bounded_by": "Parser.parse_block block_depth guard"}, cap=30)
             continue
-        names = {q.rsplit(".", 1)[-1] for q in comp}
+        names = {q.rsplit(".", 1)[-1] for q in comp if not _forwards_to_parts_of_its_arguments(repo, q, names_of_comp := {x.rsplit(".", 1)[-1] for x in comp})}
         mods = {q.rsplit(".", 2)[0] if q.count(".") > 2 else q for q in comp}
         if names <= STRUCTURAL_NAMES or all(q.startswith(("liquid.static_analysis.", "liquid.messages.")) for q in comp) or all(q.rsplit(".", 1)[-1].startswith(("_segments", "children", "_visit", "visit", "_flatten", "_analyze", "_extract")) for q in comp):
             res.sample({"rule": "C09-CYCLES", "cycle": key[:160], "bounded_by": "structural walk over the finite parsed tree / configuration"}, cap=30)
